@@ -134,3 +134,42 @@ func Sig(cs *Case) string {
 
 // NFeatures counts the distinct feature kinds of a reference run.
 func NFeatures(cs *Case) int { return len(cs.Want.Features) }
+
+// RunFixed runs n deterministic programs (an enumerated matrix rather than
+// PRNG-generated ones) in the given number of renderings, without arguments.
+func RunFixed(c *vp.Child, n int, nstyles int, get func(i int) (*lg.Program, string), nonTrivial func(cs *Case) bool) {
+	feats := map[string]int{}
+	for i := 0; i < n; i++ {
+		if !c.Mine(i) {
+			continue
+		}
+		p, label := get(i)
+		r := rand.New(rand.NewSource(c.Seed*7919 + int64(i)))
+		styles := Styles(r, 4)
+		for si := 0; si < nstyles && si < 4; si++ {
+			text, lines := lg.Render(p.Chunk, styles[si])
+			id := fmt.Sprintf("%s/s%d", label, si)
+			c.Begin(id, "-- "+label+"\n"+text)
+			cs := Check(p, text, lines, nil)
+			c.Eval(1)
+			if cs.Skip != "" {
+				c.Inconclusive("reference: " + SkipClass(cs.Skip))
+				continue
+			}
+			for k, v := range cs.Want.Features {
+				feats[k] += v
+			}
+			if nonTrivial == nil || nonTrivial(cs) {
+				c.NonTrivial(vp.Hash(text))
+			}
+			if cs.Mis != nil {
+				c.Violation(cs.Mis.What, label+": "+Sig(cs), cs.Mis.String()+"\n(reference: "+cs.Want.Kind+", "+fmt.Sprint(len(cs.Want.Trace))+" events)", "-- "+label+"\n"+text)
+			} else if c.WantSample() && si == 0 {
+				c.Sample(map[string]interface{}{"case": label, "program": text, "events": cs.Events, "reference_trace": cs.Want.Trace})
+			}
+		}
+	}
+	for k, v := range feats {
+		c.Feature(k, int64(v))
+	}
+}
